@@ -152,3 +152,22 @@ func c02Bounded(eng *Engine, tier string, seed int64) *BoundedResult {
 	}
 	return res
 }
+
+// parseBounded fills a BoundedResult from the GOVC-BOUNDED lines of a harness run.
+func parseBounded(out string, res *BoundedResult) {
+	sum := regexp.MustCompile(`GOVC-BOUNDED cases=(\d+) accepted=(\d+) failures=(\d+)`).FindStringSubmatch(out)
+	if sum == nil {
+		res.Failures = append(res.Failures, "harness did not complete: "+truncate(out, 300))
+		return
+	}
+	res.Cases, _ = strconv.Atoi(sum[1])
+	res.Nontrivial, _ = strconv.Atoi(sum[2])
+	for _, l := range strings.Split(out, "\n") {
+		if strings.HasPrefix(l, "GOVC-BOUNDED-FAIL ") {
+			res.Failures = append(res.Failures, strings.TrimPrefix(l, "GOVC-BOUNDED-FAIL "))
+		}
+	}
+	if n, _ := strconv.Atoi(sum[3]); n > 0 && len(res.Failures) == 0 {
+		res.Failures = append(res.Failures, fmt.Sprintf("%d disagreements", n))
+	}
+}
